@@ -1193,3 +1193,28 @@ def m_float_class(I, st, fr, args, path, gargs, t):
     if what == 'is_finite':
         return K(0, 'bool')
     return K(int(zero if what == 'is_infinite' else not zero), 'bool')
+
+
+# ----------------------------------------------------------------------------- `for i in a..b`: the half-open integer range as an iterator
+@model(r'<I as core::iter::IntoIterator>::into_iter')
+def m_into_iter_identity(I, st, fr, args, path, gargs, t):
+    # the blanket impl for iterators: identity
+    return args[0]
+
+
+@model(r'core::iter::range::<impl core::iter::Iterator for core::ops::Range<A>>::next|<core::ops::Range<\w+> as core::iter::Iterator>::next')
+def m_range_next(I, st, fr, args, path, gargs, t):
+    r = args[0]
+    if not isinstance(r, Ref):
+        raise Stop('Range::next on %r' % (r,))
+    v = deref(I, st, r)
+    if not (isinstance(v, Agg) and v.kind.endswith('Range') and len(v.fields) == 2 and isinstance(v.fields[0], Int) and isinstance(v.fields[1], Int)):
+        raise Stop('Range::next on %r' % (v,))
+    start, end = v.fields
+    more = st.truth(I.compare(st, 'Lt', start, end))
+    if not more:
+        return none()
+    nxt = I.mk(st, start.ty, padd(start.p, pconst(1)))          # start < end <= MAX: no overflow
+    tf = I.frame_of(st, r.frame)
+    tf.L[r.local] = I.updated(st, tf, tf.L.get(r.local), list(r.proj), Agg(v.kind, v.variant, (nxt, end)))
+    return some(start)
